@@ -91,6 +91,7 @@ fn real_main() {
 				props::c02::run(&mut out, &mut rng.fork(), thorough);
 				// The binary: a file argument vs the same bytes on standard input.
 				props::cli_extra::c14_stdin_at_offset(&mut out, &mut rng.fork(), thorough);
+				props::cli_extra::c14_unmappable_regular_file(&mut out);
 			}
 			"C04" => {
 				engines::msgpack::run_size(&mut out, &mut rng.fork(), thorough);
@@ -131,6 +132,7 @@ fn real_main() {
 			"C11" => {
 				engines::transcode::run(&mut out, &mut rng.fork(), thorough);
 				props::c11::run(&mut out, &mut rng.fork(), thorough);
+				props::c11::yaml_error_positions(&mut out, &mut rng.fork(), thorough);
 			}
 			"C09" => {
 				engines::input::run(&mut out, &mut rng.fork(), thorough);
@@ -158,12 +160,18 @@ fn real_main() {
 				props::c13::run(&mut out, &mut rng.fork(), thorough);
 				props::cli_extra::small_output_to_full_device(&mut out, "C13");
 				props::cli_extra::c13_repeated_options(&mut out);
+				props::cli_extra::c13_unreadable_operand(&mut out);
 			}
 			"C14" => {
 				props::c14::run(&mut out, &mut rng.fork(), thorough);
 				props::cli_extra::c14_stdin_at_offset(&mut out, &mut rng.fork(), thorough);
+				props::cli_extra::c14_unmappable_regular_file(&mut out);
 			}
-			"C15" => props::c15::run(&mut out, &mut rng.fork(), thorough),
+			"C15" => {
+				props::c15::run(&mut out, &mut rng.fork(), thorough);
+				engines::cli::pipecheck_table(&mut out);
+				props::cli_extra::c15_nonblocking_full_pipe(&mut out);
+			}
 			"C16" => {
 				props::c16::run(&mut out, &mut rng.fork(), thorough);
 				props::cli_extra::c16_buffer_boundary(&mut out, thorough);
